@@ -17,8 +17,8 @@ func init() {
 }
 
 type c03Timer struct {
-	t     *sonic.Timer
-	armed bool
+	t      *sonic.Timer
+	armed  bool
 	closed bool
 }
 
@@ -145,7 +145,7 @@ func (d *c03) pollChecked(variant int) {
 	before := d.cbRuns
 	switch variant {
 	case 0:
-		ready := w.K.EpollReadyCount(3+boolInt(w.K.FdBase > 3)*(w.K.FdBase-3)) // the epoll instance is the world's first descriptor
+		ready := w.K.EpollReadyCount(3 + boolInt(w.K.FdBase > 3)*(w.K.FdBase-3)) // the epoll instance is the world's first descriptor
 		n, err := d.ioc.PollOne()
 		ran := d.cbRuns > before
 		if err != nil && err != sonicerrors.ErrTimeout {
